@@ -1,7 +1,7 @@
 (* PV.C09.Proofs — lemmas: evaluation up to Qeq, the un-normalised semantics [sem] used to reason about
    concrete templates with ring/field, tactics for the regenerated obligations, neutrality of the
    documented formulas, the Q identities of the transit/absorption constants. *)
-From Coq Require Import QArith Qfield List Bool PArith Arith Lia Setoid.
+From Coq Require Import QArith Qfield List Bool PArith Arith Lia Lqa Setoid.
 From PV Require Import Base.PyData Base.Expr Base.Interp Base.Stmts C09.Model.
 Import ListNotations.
 Local Open Scope Q_scope.
@@ -56,20 +56,20 @@ Proof.
   - apply Hr.
   - apply oq_bind; [assumption|]. intros; apply P1; assumption.
   - apply oq_bind; [assumption|]. intros x x' Hx. apply oq_bind; [assumption|]. intros; apply P2; assumption.
-  - apply oq_bind; [assumption|]. intros x x' Hx. apply oq_bind; [assumption|]. intros y y' Hy; cbn.
+  - apply oq_bind; [assumption|]. intros x x' Hx. apply oq_bind; [assumption|]. intros y y' Hy; cbn [oq_equiv].
     rewrite !Qred_correct, Hx, Hy. reflexivity.
-  - apply oq_bind; [assumption|]. intros x x' Hx. apply oq_bind; [assumption|]. intros y y' Hy; cbn.
+  - apply oq_bind; [assumption|]. intros x x' Hx. apply oq_bind; [assumption|]. intros y y' Hy; cbn [oq_equiv].
     rewrite !Qred_correct, Hx, Hy. reflexivity.
-  - apply oq_bind; [assumption|]. intros x x' Hx; cbn. rewrite Hx; reflexivity.
+  - apply oq_bind; [assumption|]. intros x x' Hx; cbn [oq_equiv]. rewrite Hx; reflexivity.
   - apply oq_bind; [assumption|]. intros x x' Hx. apply oq_bind; [assumption|]. intros y y' Hy.
-    rewrite (relb_proper OEq y y' 0 0 Hy (Qeq_refl 0)) at 1. cbn [relb].
-    destruct (Qeq_bool y' 0); cbn; [exact I|]. rewrite !Qred_correct, Hx, Hy. reflexivity.
+    pose proof (relb_proper OEq y y' 0 0 Hy (Qeq_refl 0)) as Hz; cbn [relb] in Hz. rewrite Hz.
+    destruct (Qeq_bool y' 0); cbn [oq_equiv]; [exact I|]. rewrite ?Qred_correct, Hx, Hy. reflexivity.
   - exact I.
-  - rewrite H. destruct (evalc r' fi c) as [[|]|]; cbn [obind]; auto.
+  - rewrite H. destruct (evalc r' fi c) as [[|]|]; cbn [obind]; try assumption; exact I.
   - reflexivity.
   - reflexivity.
-  - destruct (eval r fi a) as [x|], (eval r' fi a) as [x'|]; cbn in H; try tauto; cbn [obind]; [|reflexivity].
-    destruct (eval r fi b) as [y|], (eval r' fi b) as [y'|]; cbn in H0; try tauto; cbn [obind]; [|reflexivity].
+  - destruct (eval r fi a) as [x|], (eval r' fi a) as [x'|]; cbn [oq_equiv] in H; try contradiction; cbn [obind]; try reflexivity.
+    destruct (eval r fi b) as [y|], (eval r' fi b) as [y'|]; cbn [oq_equiv] in H0; try contradiction; cbn [obind]; try reflexivity.
     rewrite (relb_proper o x x' y y' H H0). reflexivity.
   - rewrite H, H0. reflexivity.
   - rewrite H, H0. reflexivity.
@@ -109,20 +109,20 @@ Proof.
   - apply oq_refl.
   - apply oq_bind; [assumption|]. intros; apply P1; assumption.
   - apply oq_bind; [assumption|]. intros x x' Hx. apply oq_bind; [assumption|]. intros; apply P2; assumption.
-  - apply oq_bind; [assumption|]. intros x x' Hx. apply oq_bind; [assumption|]. intros y y' Hy; cbn.
+  - apply oq_bind; [assumption|]. intros x x' Hx. apply oq_bind; [assumption|]. intros y y' Hy; cbn [oq_equiv].
     rewrite !Qred_correct, Hx, Hy. reflexivity.
-  - apply oq_bind; [assumption|]. intros x x' Hx. apply oq_bind; [assumption|]. intros y y' Hy; cbn.
+  - apply oq_bind; [assumption|]. intros x x' Hx. apply oq_bind; [assumption|]. intros y y' Hy; cbn [oq_equiv].
     rewrite !Qred_correct, Hx, Hy. reflexivity.
-  - apply oq_bind; [assumption|]. intros x x' Hx; cbn. rewrite Hx; reflexivity.
+  - apply oq_bind; [assumption|]. intros x x' Hx; cbn [oq_equiv]. rewrite Hx; reflexivity.
   - apply oq_bind; [assumption|]. intros x x' Hx. apply oq_bind; [assumption|]. intros y y' Hy.
-    rewrite (relb_proper OEq y y' 0 0 Hy (Qeq_refl 0)) at 1. cbn [relb].
-    destruct (Qeq_bool y' 0); cbn; [exact I|]. rewrite !Qred_correct, Hx, Hy. reflexivity.
+    pose proof (relb_proper OEq y y' 0 0 Hy (Qeq_refl 0)) as Hz; cbn [relb] in Hz. rewrite Hz.
+    destruct (Qeq_bool y' 0); cbn [oq_equiv]; [exact I|]. rewrite ?Qred_correct, Hx, Hy. reflexivity.
   - exact I.
-  - rewrite H. destruct (semc r fi c) as [[|]|]; cbn [obind]; auto.
+  - rewrite H. destruct (semc r fi c) as [[|]|]; cbn [obind]; try assumption; exact I.
   - reflexivity.
   - reflexivity.
-  - destruct (eval r fi a) as [x|], (sem r fi a) as [x'|]; cbn in H; try tauto; cbn [obind]; [|reflexivity].
-    destruct (eval r fi b) as [y|], (sem r fi b) as [y'|]; cbn in H0; try tauto; cbn [obind]; [|reflexivity].
+  - destruct (eval r fi a) as [x|], (sem r fi a) as [x'|]; cbn [oq_equiv] in H; try contradiction; cbn [obind]; try reflexivity.
+    destruct (eval r fi b) as [y|], (sem r fi b) as [y'|]; cbn [oq_equiv] in H0; try contradiction; cbn [obind]; try reflexivity.
     rewrite (relb_proper o x x' y y' H H0). reflexivity.
   - rewrite H, H0. reflexivity.
   - rewrite H, H0. reflexivity.
@@ -165,18 +165,32 @@ Ltac destruct_syms r :=
          | |- context[r ?s] => let v := fresh "v" in destruct (r s) as [v|]; cbn [obind]
          end.
 
-(* two applications of the same function symbol to Qeq arguments: make them syntactically one *)
-Ltac unify_fi1 P1 :=
+(* two applications of the same function symbol to Qeq (not identical) arguments *)
+Ltac unify_fi P1 P2 :=
   repeat match goal with
          | |- context[fi1 ?fi ?f ?a] =>
              match goal with
              | |- context[fi1 fi f ?b] =>
                  tryif constr_eq a b then fail else
                    (let E := fresh "E" in
-                    assert (E : a == b) by (try ring; try field; auto);
+                    assert (E : a == b) by ring;
                     let H := fresh "H" in
-                    pose proof (P1 f a b E) as H;
-                    destruct (fi1 fi f a), (fi1 fi f b); cbn [oq_equiv] in H; try contradiction; cbn [obind])
+                    pose proof (P1 f a b E) as H; clear E;
+                    let w := fresh "w" in let w' := fresh "w" in
+                    destruct (fi1 fi f a) as [w|], (fi1 fi f b) as [w'|]; cbn [oq_equiv] in H;
+                    try contradiction; cbn [obind]; try exact I)
+             end
+         | |- context[fi2 ?fi ?f ?a ?c] =>
+             match goal with
+             | |- context[fi2 fi f ?b ?d] =>
+                 tryif (constr_eq a b; constr_eq c d) then fail else
+                   (let E := fresh "E" in let E' := fresh "E" in
+                    assert (E : a == b) by ring; assert (E' : c == d) by ring;
+                    let H := fresh "H" in
+                    pose proof (P2 f a b c d E E') as H; clear E E';
+                    let w := fresh "w" in let w' := fresh "w" in
+                    destruct (fi2 fi f a c) as [w|], (fi2 fi f b d) as [w'|]; cbn [oq_equiv] in H;
+                    try contradiction; cbn [obind]; try exact I)
              end
          end.
 
@@ -196,22 +210,31 @@ Ltac destruct_tests :=
              let E := fresh "E" in destruct (Qle_bool a b) eqn:E; cbn [obind negb]
          end.
 
+Ltac use_var_eqs :=
+  repeat match goal with
+         | H : ?a == ?b |- _ => is_var a; is_var b; rewrite H in *; clear H
+         end.
+
 Ltac finish_q :=
+  try apply oq_refl;
   cbn [oq_equiv obind negb];
   try exact I; try reflexivity;
-  try (exfalso; match goal with H : ~ _ == _ |- _ => apply H; try ring; (match goal with E : _ == _ |- _ => rewrite <- E; ring end) end);
+  use_var_eqs;
+  try exact I; try reflexivity;
+  try (exfalso; lra);
   try (exfalso; match goal with H : ~ _ == _, E : _ == _ |- _ => apply H; rewrite <- E; ring end);
-  try (exfalso; match goal with H : ~ _ == _, E : _ == _ |- _ => apply H; setoid_replace 0 with (0 + 0) by ring; rewrite <- E; ring end);
   try ring;
-  try (field; auto).
+  try (field; auto);
+  try (field; repeat split; auto; lra).
 
 Ltac sem_equiv :=
   match goal with
-  | |- oq_equiv (sem ?r ?fi _) (sem ?r ?fi _) =>
+  | Hp : fi_proper ?fi |- oq_equiv (sem ?r ?fi _) (sem ?r ?fi _) =>
+      let P1 := fresh "P1" in let P2 := fresh "P2" in
+      pose proof (proj1 Hp) as P1; pose proof (proj2 Hp) as P2;
       cbn -[Qeq_bool Qle_bool Qplus Qmult Qopp Qdiv Qinv oq_equiv];
       destruct_syms r; try exact I;
-      destruct_fi; try exact I;
-      destruct_tests;
+      repeat (progress (unify_fi P1 P2; destruct_fi; try exact I; destruct_tests));
       finish_q
   end.
 
@@ -390,3 +413,212 @@ Lemma mat_fo_q (mat : Q) : ~ mat == 0 -> 1 / (1 / mat) == mat.
 Proof. intros Hm. field. exact Hm. Qed.
 Lemma mat_zo_q (mat : Q) : (2 * mat) / 2 == mat.
 Proof. field. Qed.
+
+(* ---- the transit / absorption constants of a template record give the documented mean times ------- *)
+Lemma transit_mean_time_sem fi r n mdt :
+  r s_n = Some n -> r s_mdt = Some mdt -> 0 < n -> ~ mdt == 0 ->
+  oq_equiv (sem r fi (Mul (Sym s_n) (Div one doc_transit_rate))) (Some mdt).
+Proof.
+  intros Hn Hm Hpos Hnz. cbn [sem doc_transit_rate one]. rewrite Hn, Hm. cbn [obind].
+  assert (N0 : ~ n == 0) by (intro E; rewrite E in Hpos; discriminate Hpos).
+  assert (E1 : Qeq_bool mdt 0 = false) by (destruct (Qeq_bool mdt 0) eqn:E; [apply Qeq_bool_iff in E; contradiction|reflexivity]).
+  rewrite E1. cbn [obind].
+  assert (E2 : Qeq_bool (n / mdt) 0 = false).
+  { destruct (Qeq_bool (n / mdt) 0) eqn:E; [|reflexivity]. apply Qeq_bool_iff in E. exfalso.
+    apply N0. setoid_replace n with ((n / mdt) * mdt) by (field; exact Hnz). rewrite E. ring. }
+  rewrite E2. cbn [obind oq_equiv]. apply transit_mdt_q; assumption.
+Qed.
+
+Lemma fo_mean_time_sem fi r mat :
+  r s_mat = Some mat -> ~ mat == 0 -> oq_equiv (sem r fi (Div one doc_fo_rate)) (Some mat).
+Proof.
+  intros Hm Hnz. cbn [sem doc_fo_rate one]. rewrite Hm. cbn [obind].
+  assert (E1 : Qeq_bool mat 0 = false) by (destruct (Qeq_bool mat 0) eqn:E; [apply Qeq_bool_iff in E; contradiction|reflexivity]).
+  rewrite E1. cbn [obind].
+  assert (E2 : Qeq_bool (1 / mat) 0 = false).
+  { destruct (Qeq_bool (1 / mat) 0) eqn:E; [|reflexivity]. apply Qeq_bool_iff in E. exfalso.
+    assert (H : 1 == (1 / mat) * mat) by (field; exact Hnz). rewrite E in H. ring_simplify in H. discriminate H. }
+  rewrite E2. cbn [obind oq_equiv]. apply mat_fo_q; exact Hnz.
+Qed.
+
+Lemma zo_mean_time_sem fi r mat :
+  r s_mat = Some mat -> oq_equiv (sem r fi (Div doc_zo_duration (Num 2))) (Some mat).
+Proof.
+  intros Hm. cbn [sem doc_zo_duration]. rewrite Hm. cbn [obind].
+  change (Qeq_bool 2 0) with false. cbn [obind oq_equiv]. apply mat_zo_q.
+Qed.
+
+(* congruence of expr_equiv for the constructors used in the statements about mean times *)
+Lemma expr_equiv_mul a a' b b' : expr_equiv a a' -> expr_equiv b b' -> expr_equiv (Mul a b) (Mul a' b').
+Proof.
+  intros Ha Hb r fi Hp. cbn [eval]. apply oq_bind; [apply Ha; exact Hp|]. intros x x' Hx.
+  apply oq_bind; [apply Hb; exact Hp|]. intros y y' Hy. cbn [oq_equiv]. rewrite !Qred_correct, Hx, Hy. reflexivity.
+Qed.
+Lemma expr_equiv_div a a' b b' : expr_equiv a a' -> expr_equiv b b' -> expr_equiv (Div a b) (Div a' b').
+Proof.
+  intros Ha Hb r fi Hp. cbn [eval]. apply oq_bind; [apply Ha; exact Hp|]. intros x x' Hx.
+  apply oq_bind; [apply Hb; exact Hp|]. intros y y' Hy.
+  pose proof (relb_proper OEq y y' 0 0 Hy (Qeq_refl 0)) as Hz; cbn [relb] in Hz. rewrite Hz.
+  destruct (Qeq_bool y' 0); cbn [oq_equiv]; [exact I|]. rewrite !Qred_correct, Hx, Hy. reflexivity.
+Qed.
+
+Lemma transit_mean_time T fi r n mdt :
+  templates_equiv T doc_templates -> fi_proper fi ->
+  r s_n = Some n -> r s_mdt = Some mdt -> 0 < n -> ~ mdt == 0 ->
+  oq_equiv (eval r fi (Mul (Sym s_n) (Div one (t_transit_rate T)))) (Some mdt) /\
+  oq_equiv (eval r fi (Mul (Sym s_n) (Div one (t_transit_rate_update T)))) (Some mdt).
+Proof.
+  intros HT Hp Hn Hm Hpos Hnz. split.
+  - eapply oq_trans; [apply (expr_equiv_mul _ _ _ _ (expr_equiv_refl _)
+                               (expr_equiv_div _ _ _ _ (expr_equiv_refl _) (te_transit_rate _ _ HT))); exact Hp|].
+    eapply oq_trans; [apply eval_sem_e; exact Hp|]. apply (transit_mean_time_sem fi r n mdt); assumption.
+  - eapply oq_trans; [apply (expr_equiv_mul _ _ _ _ (expr_equiv_refl _)
+                               (expr_equiv_div _ _ _ _ (expr_equiv_refl _) (te_transit_rate_update _ _ HT))); exact Hp|].
+    eapply oq_trans; [apply eval_sem_e; exact Hp|]. apply (transit_mean_time_sem fi r n mdt); assumption.
+Qed.
+
+Lemma fo_mean_time T fi r mat :
+  templates_equiv T doc_templates -> fi_proper fi -> r s_mat = Some mat -> ~ mat == 0 ->
+  oq_equiv (eval r fi (Div one (t_fo_rate T))) (Some mat).
+Proof.
+  intros HT Hp Hm Hnz.
+  eapply oq_trans; [apply (expr_equiv_div _ _ _ _ (expr_equiv_refl _) (te_fo_rate _ _ HT)); exact Hp|].
+  eapply oq_trans; [apply eval_sem_e; exact Hp|]. apply fo_mean_time_sem; assumption.
+Qed.
+
+Lemma zo_mean_time T fi r mat :
+  templates_equiv T doc_templates -> fi_proper fi -> r s_mat = Some mat ->
+  oq_equiv (eval r fi (Div (t_zo_duration T) (Num 2))) (Some mat).
+Proof.
+  intros HT Hp Hm.
+  eapply oq_trans; [apply (expr_equiv_div _ _ _ _ (te_zo_duration _ _ HT) (expr_equiv_refl _)); exact Hp|].
+  eapply oq_trans; [apply eval_sem_e; exact Hp|]. apply zo_mean_time_sem; assumption.
+Qed.
+
+(* ---- IIV: neutrality for every template record equivalent to the documented one ------------------- *)
+Lemma iiv_neutral_of_equiv T fi r k o p z :
+  templates_equiv T doc_templates -> fi_proper fi -> exp_zero_one fi -> iiv_neutral_kind k o = true ->
+  r s_original = Some p -> r s_eta_new = Some z -> z == 0 ->
+  oq_equiv (eval r fi (t_iiv T k o)) (Some p).
+Proof.
+  intros HT Hp He Hk Ho Hz Hz0.
+  eapply oq_trans; [apply (te_iiv _ _ HT k o r fi Hp)|].
+  eapply oq_trans; [apply eval_sem_e; exact Hp|].
+  cbn [doc_templates t_iiv]. eapply doc_iiv_neutral_sem; eauto.
+Qed.
+
+Lemma iiv_not_neutral_of_equiv T fi r k o p :
+  templates_equiv T doc_templates -> fi_proper fi -> exp_zero_one fi ->
+  r s_original = Some p -> r s_eta_new = Some 0 ->
+  oq_equiv (eval r fi (t_iiv T k o))
+           (match k, o with
+            | IExp, OpAdd => Some (p + 1)
+            | ILogit, _ => Some (p / 2)
+            | IReLogit, _ => Some (1 # 2)
+            | _, _ => Some p end).
+Proof.
+  intros HT Hp He Ho Hz.
+  eapply oq_trans; [apply (te_iiv _ _ HT k o r fi Hp)|].
+  eapply oq_trans; [apply eval_sem_e; exact Hp|]. cbn [doc_templates t_iiv].
+  destruct k, o;
+    try (apply (doc_iiv_neutral_sem fi r _ _ p 0); auto; reflexivity).
+  - apply doc_iiv_exp_add_at_zero; auto.
+  - apply doc_iiv_logit_at_zero; auto.
+  - apply doc_iiv_logit_at_zero; auto.
+  - apply (doc_iiv_relogit_at_zero fi r p); auto.
+  - apply (doc_iiv_relogit_at_zero fi r p); auto.
+Qed.
+
+(* ---- error models: Y is affine in each epsilon, with the documented prediction and coefficients ---- *)
+(* one epsilon: Y[eps := v] = pred + v * coeff, pred and coeff evaluated where eps is undefined *)
+Definition shape1 (Y : expr) (eps : id) (pred coeff : expr) : Prop :=
+  forall fi r v, fi_proper fi ->
+    oq_equiv (eval (upd r eps (Some v)) fi Y)
+             (obind (eval (upd r eps None) fi pred) (fun p =>
+              obind (eval (upd r eps None) fi coeff) (fun c => Some (p + v * c)))).
+Definition shape2 (Y : expr) (e1 e2 : id) (pred c1 c2 : expr) : Prop :=
+  forall fi r v1 v2, fi_proper fi ->
+    let r0 := upd (upd r e1 None) e2 None in
+    oq_equiv (eval (upd (upd r e1 (Some v1)) e2 (Some v2)) fi Y)
+             (obind (eval r0 fi pred) (fun p =>
+              obind (eval r0 fi c1) (fun a =>
+              obind (eval r0 fi c2) (fun b => Some (p + v1 * a + v2 * b))))).
+
+Lemma shape1_equiv Y Y' eps pred coeff : expr_equiv Y Y' -> shape1 Y' eps pred coeff -> shape1 Y eps pred coeff.
+Proof. intros HE H fi r v Hp. eapply oq_trans; [apply HE; exact Hp | apply H; exact Hp]. Qed.
+Lemma shape2_equiv Y Y' e1 e2 pred c1 c2 : expr_equiv Y Y' -> shape2 Y' e1 e2 pred c1 c2 -> shape2 Y e1 e2 pred c1 c2.
+Proof. intros HE H fi r v1 v2 Hp. eapply oq_trans; [apply HE; exact Hp | apply H; exact Hp]. Qed.
+
+Ltac to_sem Hp :=
+  repeat match goal with
+         | |- context[eval ?r ?fi ?e] =>
+             let H := fresh "S" in
+             pose proof (eval_sem_e fi r e Hp) as H;
+             destruct (eval r fi e); destruct (sem r fi e) eqn:?; cbn [oq_equiv] in H; try contradiction
+         end.
+
+Lemma shape1_of_sem Y eps pred coeff :
+  (forall fi r v, fi_proper fi ->
+     oq_equiv (sem (upd r eps (Some v)) fi Y)
+              (obind (sem (upd r eps None) fi pred) (fun p =>
+               obind (sem (upd r eps None) fi coeff) (fun c => Some (p + v * c))))) ->
+  shape1 Y eps pred coeff.
+Proof.
+  intros H fi r v Hp.
+  eapply oq_trans; [apply eval_sem_e; exact Hp|]. eapply oq_trans; [apply H; exact Hp|].
+  apply oq_sym. apply oq_bind; [apply eval_sem_e; exact Hp|]. intros p p' Hpp.
+  apply oq_bind; [apply eval_sem_e; exact Hp|]. intros c c' Hc. cbn [oq_equiv]. rewrite Hpp, Hc. reflexivity.
+Qed.
+Lemma shape2_of_sem Y e1 e2 pred c1 c2 :
+  (forall fi r v1 v2, fi_proper fi ->
+     let r0 := upd (upd r e1 None) e2 None in
+     oq_equiv (sem (upd (upd r e1 (Some v1)) e2 (Some v2)) fi Y)
+              (obind (sem r0 fi pred) (fun p => obind (sem r0 fi c1) (fun a =>
+               obind (sem r0 fi c2) (fun b => Some (p + v1 * a + v2 * b)))))) ->
+  shape2 Y e1 e2 pred c1 c2.
+Proof.
+  intros H fi r v1 v2 Hp r0.
+  eapply oq_trans; [apply eval_sem_e; exact Hp|]. eapply oq_trans; [apply H; exact Hp|].
+  apply oq_sym. apply oq_bind; [apply eval_sem_e; exact Hp|]. intros p p' Hpp.
+  apply oq_bind; [apply eval_sem_e; exact Hp|]. intros a a' Ha.
+  apply oq_bind; [apply eval_sem_e; exact Hp|]. intros b b' Hb. cbn [oq_equiv]. rewrite Hpp, Ha, Hb. reflexivity.
+Qed.
+
+Ltac shape_sem :=
+  let fi := fresh "fi" in let r := fresh "r" in let Hp := fresh "Hp" in
+  intros fi r; intros; 
+  match goal with Hp : fi_proper fi |- _ =>
+    let P1 := fresh "P1" in let P2 := fresh "P2" in
+    pose proof (proj1 Hp) as P1; pose proof (proj2 Hp) as P2;
+    cbn -[Qeq_bool Qle_bool Qplus Qmult Qopp Qdiv Qinv oq_equiv];
+    destruct_syms r; try exact I;
+    repeat (progress (unify_fi P1 P2; destruct_fi; try exact I; destruct_tests));
+    finish_q
+  end.
+
+Lemma doc_add_shape : shape1 doc_add_error s_eps_a (Sym s_f) one.
+Proof. apply shape1_of_sem. shape_sem. Qed.
+Lemma doc_prop_shape_id zp :
+  shape1 (doc_prop_error DTId zp) s_eps_p (Sym s_x) (if zp then Sym s_ipredadj else Sym s_x).
+Proof. apply shape1_of_sem. destruct zp; shape_sem. Qed.
+Lemma doc_prop_shape_log zp :
+  shape1 (doc_prop_error DTLog zp) s_eps_p (Fn1 F_LOG (if zp then Sym s_ipredadj else Sym s_x)) one.
+Proof. apply shape1_of_sem. destruct zp; shape_sem. Qed.
+Lemma doc_comb_shape_plain :
+  shape2 (doc_comb_error CombPlain) s_eps_p s_eps_a (Sym s_x) (Sym s_x) one.
+Proof. apply shape2_of_sem. shape_sem. Qed.
+Lemma doc_comb_shape_log :
+  shape2 (doc_comb_error CombLog) s_eps_p s_eps_a (Fn1 F_LOG (Sym s_x)) one (Div one (Sym s_x)).
+Proof. apply shape2_of_sem. shape_sem. Qed.
+Lemma doc_comb_shape_iivruv :
+  shape2 (doc_comb_error CombIivRuv) s_eps_p s_eps_a (Sym s_x)
+         (Mul (Sym s_x) (Fn1 F_EXP (Sym s_eta_ruv))) (Fn1 F_EXP (Sym s_eta_ruv)).
+Proof. apply shape2_of_sem. shape_sem. Qed.
+
+(* the zero-protection guard is the prediction itself wherever the prediction is not 0 *)
+Lemma doc_guard_identity fi r f : r s_f = Some f -> ~ f == 0 -> oq_equiv (sem r fi doc_prop_guard) (Some f).
+Proof.
+  intros Hf Hnz. cbn [doc_prop_guard sem semc]. rewrite Hf. cbn [obind relb].
+  assert (E : Qeq_bool f 0 = false) by (destruct (Qeq_bool f 0) eqn:E; [apply Qeq_bool_iff in E; contradiction|reflexivity]).
+  rewrite E. cbn. reflexivity.
+Qed.
